@@ -2,7 +2,7 @@
    Only pinned statements, closed by [exact lemma], with Print Assumptions. *)
 From Coq Require Import List NArith Bool.
 From FT Require Import Model.Base Model.Local Model.Records Model.Collector Model.System
-     Proofs.RecordsProofs Proofs.IdsProofs Proofs.SystemProofs Proofs.ApiProofs.
+     Proofs.RecordsProofs Proofs.IdsProofs Proofs.SystemProofs Proofs.ApiProofs Proofs.DeliveryProofs.
 Import ListNotations.
 Open Scope N_scope.
 
@@ -70,6 +70,24 @@ Proof. exact ids_wrap_refuted. Qed.
 Theorem C02_id_zero_with_prefix_zero : forall s, s < two32 -> nth_id (mkEnv 0 s 0) (two32 - s) = 0.
 Proof. exact id_zero_with_prefix_zero. Qed.
 
+(* what reaches the reporter, default configuration, for EVERY batch and every active map
+   satisfying the cycle invariant: a record is reported if and only if its (trace, span id,
+   parent) is that of a raw span of a submitted set under one of the set's token items -- the
+   item's trace; the item's parent for the roots of a local set, the recorded (innermost open
+   local span's) parent for the others.  With [C02_child_parent] / [C02_root_token] (the
+   token item names the issuing span) this is the span tree of the program. *)
+Theorem C02_reported_core_is_submitted :
+  forall conv am b r,
+    cycle_inv am -> In r (snd (process conv false am b)) ->
+    In (core3 r) (flat_map coll_cores (submitted_colls (b_submit b))).
+Proof. exact default_reported_core_is_submitted. Qed.
+
+Theorem C02_submitted_core_is_reported :
+  forall conv am b x,
+    cycle_inv am -> In x (flat_map coll_cores (submitted_colls (b_submit b))) ->
+    exists r, In r (snd (process conv false am b)) /\ core3 r = x.
+Proof. exact default_submitted_core_is_reported. Qed.
+
 Print Assumptions C02_trace_id_from_a_root.
 Print Assumptions C02_root_token.
 Print Assumptions C02_span_record.
@@ -81,3 +99,5 @@ Print Assumptions C02_ids_nonzero.
 Print Assumptions C02_ids_differ_across_threads.
 Print Assumptions C02_ids_wrap_refuted.
 Print Assumptions C02_id_zero_with_prefix_zero.
+Print Assumptions C02_reported_core_is_submitted.
+Print Assumptions C02_submitted_core_is_reported.
